@@ -225,6 +225,7 @@ def validate(module, cfg, trace_file, tag, timeout=1200):
 # harness runs
 
 HANGS = []     # run ids whose execution hung inside the code under test (filled by run_scripts)
+PANICS = []    # (run id, message, call) of panics inside the code under test (filled by run_scripts)
 
 
 def run_scripts(scripts, projs, tag, shards=NPROC, probe=1, timeout=1800):
@@ -255,6 +256,11 @@ def run_scripts(scripts, projs, tag, shards=NPROC, probe=1, timeout=1800):
             return (out, first, n)
         if rc != 0:
             raise ToolError("qv failed on shard %d (rc=%d): %s" % (k, rc, o[-2000:]))
+        pf = os.path.join(out, "panics.ndjson")
+        if os.path.exists(pf):
+            for line in open(pf):
+                p = json.loads(line)
+                PANICS.append((p["run"], p.get("msg"), p.get("what")))
         return (out, first, n)
 
     t = time.time()
